@@ -1027,8 +1027,8 @@ func main() {
 
 	d := boot()
 	warmBinding()
-	nBound := r.Pick(96, 2400)
-	nUnbound := r.Pick(24, 400)
+	nBound := r.Pick(96, 4000)
+	nUnbound := r.Pick(24, 600)
 	workers := runtime.NumCPU()
 	if workers > 16 {
 		workers = 16
@@ -1038,7 +1038,7 @@ func main() {
 	// sequences without a binding run in their own process
 	done := make(chan mon.ChildResult, 1)
 	go func() {
-		done <- r.RunChild(mon.ChildSpec{Label: "unbound", Args: []string{"unbound", "0", fmt.Sprint(nUnbound)}, Timeout: time.Duration(r.Pick(120, 1800)) * time.Second})
+		done <- r.RunChild(mon.ChildSpec{Label: "unbound", Args: []string{"unbound", "0", fmt.Sprint(nUnbound)}, Timeout: time.Duration(r.Pick(600, 3600)) * time.Second})
 	}()
 
 	t0 := time.Now()
